@@ -57,7 +57,7 @@ type c04Member struct {
 	Poly string `json:"poly"`           // lib | det | small | big | same
 	Seed uint32 `json:"seed,omitempty"` //
 	R1   string `json:"r1,omitempty"`   // "" | stop | short | long | bada0 | badot | replay | wrongmid | mismatch | negate
-	R2   string `json:"r2,omitempty"`   // "" | stop | flip | scalar | plusn | nonce | wrongkey | swap | short | long | wrongmid | badlen
+	R2   string `json:"r2,omitempty"`   // "" | stop | flip | scalar | plusn | nonce | wrongkey | swap | short | long | wrongmid | badlen | outrange
 	R3   string `json:"r3,omitempty"`   // "" | stop | false | mixed | badkeysym | badsig | nonmember | self | impersonate | badconfirm | forged
 	Fix1 bool   `json:"fix1,omitempty"` // after a rejected round-k deviation submit what the daemon would (else the member is gone)
 	Fix2 bool   `json:"fix2,omitempty"`
@@ -123,8 +123,8 @@ type c04Case struct {
 var (
 	r1Devs = []string{"stop", "short", "long", "bada0", "badot", "replay", "wrongmid", "mismatch", "negate"}
 	r1W    = []int{3, 4, 4, 5, 5, 6, 3, 8, 5}
-	r2Devs = []string{"stop", "flip", "scalar", "plusn", "nonce", "wrongkey", "swap", "short", "long", "wrongmid", "badlen"}
-	r2W    = []int{3, 9, 9, 3, 5, 5, 7, 3, 3, 2, 10}
+	r2Devs = []string{"stop", "flip", "scalar", "plusn", "nonce", "wrongkey", "swap", "short", "long", "wrongmid", "badlen", "outrange"}
+	r2W    = []int{3, 9, 9, 3, 5, 5, 7, 3, 3, 2, 10, 9}
 	r3Devs = []string{"stop", "false", "mixed", "badkeysym", "badsig", "nonmember", "self", "impersonate", "badconfirm", "forged"}
 	r3W    = []int{3, 11, 6, 12, 6, 4, 3, 3, 7, 16}
 )
@@ -456,6 +456,7 @@ type world struct {
 	reached      [5]bool
 	devApplied   int
 	finalAtRound int
+	daemonErr    string // the daemon failed on a non-canonical plaintext; reported at the end unless something else breaks first
 	deferred     string // a second round-3 message of a member was accepted: reported at the end unless a downstream guarantee breaks first
 	doubleAt     int64  // height of the (first) block that carried a second round-3 message
 
@@ -931,6 +932,46 @@ func (w *world) buildR2(m *mem, deviate bool) *item {
 			return nil
 		}
 		slot(r).plain = raw // congruent to the correct share: still consistent
+	case "outrange":
+		// a share whose 32-byte PLAINTEXT is not a canonical scalar (value in [N, 2^256)), correctly encrypted under the
+		// pair's key and inconsistent with the commitments: a bad share like any other, the recipient's complaint must
+		// succeed and the dealer - not the complainant - must be marked malicious
+		max := new(big.Int).Sub(new(big.Int).Lsh(big.NewInt(1), 256), big.NewInt(1))
+		for ti, r := range targets {
+			var raw *big.Int
+			kind := ""
+			switch (v + ti) % 5 {
+			case 0:
+				raw, kind = new(big.Int).Set(max), "2^256-1"
+			case 1:
+				raw, kind = new(big.Int).Set(ref.TSSN), "N"
+			case 2:
+				raw, kind = new(big.Int).Add(ref.TSSN, big.NewInt(1)), "N+1"
+			case 3:
+				raw, kind = new(big.Int).Sub(max, big.NewInt(int64(1+v%7))), "near-2^256"
+			default: // somewhere inside [N, 2^256)
+				off := new(big.Int).Rsh(bigOf(tssworld.ScalarFrom("c04-outrange", w.c.Seed, m.idx, r.idx)), 130)
+				raw, kind = new(big.Int).Add(ref.TSSN, off), "inside"
+			}
+			want := ref.TSSEvalPoly(m.dealt, uint64(r.id))
+			if m.committed != nil {
+				want = ref.TSSEvalPoly(m.committed, uint64(r.id))
+			}
+			if modN(raw).Cmp(want) == 0 { // by accident congruent to the right share
+				raw.Add(raw, big.NewInt(1))
+				if raw.Cmp(max) > 0 {
+					raw.Sub(raw, big.NewInt(2))
+				}
+			}
+			b := make([]byte, 32)
+			raw.FillBytes(b)
+			if k := keyFor(r); k == nil || !reenc(r, nil, b, k) {
+				return nil
+			}
+			slot(r).plain = raw
+			w.v.Class("r2-share-plaintext-out-of-range:" + kind)
+			w.v.Count("r2_share_plaintext_out_of_range", 1)
+		}
 	case "wrongkey":
 		for _, r := range targets {
 			x := tssworld.ScalarFrom("c04-otherpub", w.c.Seed, m.idx, r.idx)
@@ -1076,8 +1117,31 @@ func (w *world) buildR3(m *mem, deviate bool) *item {
 	// the daemon's share handling (hook) ...
 	own, complaints, err := group.VerifGetOwnPrivKey(m.dkg, w.gr)
 	if err != nil {
-		w.fail("C04/daemon-error", "getOwnPrivKey(member %d): %v", m.id, err)
-		return nil
+		// The daemon gave up. If a dealer sent this member a non-canonical plaintext the run goes on with the complaints
+		// the protocol prescribes (tss.SignComplaint needs no decryption), so that the chain's side of the same
+		// situation is judged too; the daemon's failure is reported at the end unless something else breaks first.
+		outOfRange := false
+		for _, j := range w.others(m) {
+			if sl := w.slotOf(j, m); sl >= 0 && sl < len(j.slots) && j.slots[sl].plain != nil && j.slots[sl].plain.Cmp(ref.TSSN) >= 0 {
+				outOfRange = true
+			}
+		}
+		if !outOfRange {
+			w.fail("C04/daemon-error", "getOwnPrivKey(member %d): %v", m.id, err)
+			return nil
+		}
+		if w.daemonErr == "" {
+			w.daemonErr = fmt.Sprintf("getOwnPrivKey(member %d) fails on a share with plaintext >= N instead of producing a complaint: %v", m.id, err)
+		}
+		w.v.Class("daemon-error-on-out-of-range-share")
+		own, complaints = nil, nil
+		for _, j := range w.others(m) {
+			if w.bad(j, m) {
+				if c, ok := w.genuineComplaint(m, j); ok {
+					complaints = append(complaints, *c)
+				}
+			}
+		}
 	}
 	// ... against what the harness knows about every share dealt to m
 	want := map[tss.MemberID]bool{}
@@ -2422,6 +2486,9 @@ func (w *world) finish() *pbt.Verdict {
 	v := w.v
 	if w.ok() && w.deferred != "" {
 		w.fail("C04/bad-accepted", "%s", w.deferred)
+	}
+	if w.ok() && w.daemonErr != "" {
+		w.fail("C04/daemon-error", "%s", w.daemonErr)
 	}
 	if w.ok() && w.gr != nil {
 		st := w.gr.Group.Status
